@@ -1,6 +1,7 @@
 (* C10 runner: replays the Dutch-auction traces on the extracted model (DutchV2), diffs the
    projections after every step, evaluates the extracted holds_C10_* predicates on the
-   IMPLEMENTATION's observations and classifies failures by the kf_C10_* predicates. *)
+   IMPLEMENTATION's observations and classifies failures by the kf_C10_* predicates (only kf_C10_1 is
+   left: C10-F2 and C10-F3 are repaired, a recurrence is a plain violation). *)
 open Conv
 open DutchV2
 
@@ -106,7 +107,6 @@ let run (path : string) =
   let prevA : (string * auction) list ref = ref [] in
   let curA : (string * auction) list ref = ref [] in
   let curL : lobs option ref = ref None in
-  let acc_short = ref zzero in
   let targets : (string, locked) Hashtbl.t = Hashtbl.create 8 in
   let sums : (string, BinNums.coq_Z * BinNums.coq_Z) Hashtbl.t = Hashtbl.create 8 in
   (* what the last op was, for the predicate evaluation at the E line *)
@@ -126,7 +126,7 @@ let run (path : string) =
         case := id; step := 0;
         cf := { c_premium = z prem; c_disc = z dsc; c_dur = z du; c_minusd = z mu; c_ki = z ki; c_dc = z dc; c_dd = z dd };
         st := { led = (fun _ -> zzero); rsv = None; xfee = zzero };
-        live := []; rebase := true; prevL := None; prevA := []; curA := []; curL := None; acc_short := zzero;
+        live := []; rebase := true; prevL := None; prevA := []; curA := []; curL := None;
         Hashtbl.reset targets; Hashtbl.reset sums; last_bid := None; last_tick := false; good_bid := false;
         Buffer.clear sig_; Buffer.add_string sig_ (S.concat " " [prem; dsc; du; mu; ki; dc; dd]);
         ()
@@ -140,7 +140,7 @@ let run (path : string) =
          | Base.Ok a -> live := !live @ [ { aid; lk; au = a; ipaid = zzero; irecv = zzero } ]
          | Base.Err _ -> mismatch ~case:!case ~step:!step ~field:"start.result" ~model:"err" ~impl:cls
          | Base.Panic -> mismatch ~case:!case ~step:!step ~field:"start.result" ~model:"panic" ~impl:cls);
-        if kf_C10_3 !cf lk then bump "start:kf_C10_3";
+        if zs lk.l_init = "2" && BinInt.Z.gtb (keeper_incentive !cf lk.l_fee) zzero then bump "start:external_with_incentive";
         rebase := true; last_bid := None; last_tick := false
       | "op" :: "nostart" :: _ ->
         incr step; incr steps; bump "op:nostart"; rebase := true; last_bid := None; last_tick := false
@@ -163,7 +163,7 @@ let run (path : string) =
                 st := s';
                 (match a' with Some a -> m.au <- a; bump "bid:partial" | None -> live := L.filter (fun x -> x.aid <> aid) !live; bump "bid:closing");
                 if r.r_exh then bump "bid:exhausted";
-                if kf_C10_2 r then begin bump "bid:kf_C10_2"; acc_short := zadd !acc_short (zsub r.r_short r.r_topup) end
+                if BinInt.Z.gtb r.r_topup zzero then bump "bid:reserve_topup"
               end
             | Base.Err c ->
               bump ("bid:err" ^ zs c);
@@ -171,10 +171,8 @@ let run (path : string) =
             | Base.Panic ->
               if cls <> "panic" then mismatch ~case:!case ~step:!step ~field:"bid.result" ~model:"panic" ~impl:cls));
         (* "settles completely": a bid message must never panic *)
-        if cls = "panic" then begin
-          let kf = (match Hashtbl.find_opt targets aid with Some lk when kf_C10_3 !cf lk -> "kf_C10_3" | _ -> "none") in
-          predfail ~case:!case ~step:!step ~pred:"bid_no_panic" ~kf ~detail:("aid=" ^ aid ^ "_amt=" ^ amt)
-        end;
+        if cls = "panic" then
+          predfail ~case:!case ~step:!step ~pred:"bid_no_panic" ~kf:"none" ~detail:("aid=" ^ aid ^ "_amt=" ^ amt);
         last_bid := Some (aid, int_of_string who, cls, z twa); last_tick := false
       | "L" :: rest ->
         let o = parse_L rest in
@@ -247,10 +245,11 @@ let run (path : string) =
             | None -> acc) zzero !curA in
         let res_c = zsub o.bals.(0) sum_c in
         let res_d = zsub (zsub o.bals.(1) sum_d) o.xf in
-        if not (holds_C10_custody res_c res_d) then begin
-          let kf = if zeq res_c zzero && zeq (zadd res_d !acc_short) zzero && not (zeq !acc_short zzero) then "kf_C10_2" else "none" in
-          predfail ~case:!case ~step:!step ~pred:"holds_C10_custody" ~kf ~detail:("res_c=" ^ zs res_c ^ "_res_d=" ^ zs res_d)
-        end;
+        if not (holds_C10_custody res_c res_d) then
+          predfail ~case:!case ~step:!step ~pred:"holds_C10_custody" ~kf:"none" ~detail:("res_c=" ^ zs res_c ^ "_res_d=" ^ zs res_d);
+        (* the app reserve record is never negative and is backed by the liquidation module's balance *)
+        if o.rfound && not (holds_C10_reserve o.ramt o.bals.(7)) then
+          predfail ~case:!case ~step:!step ~pred:"holds_C10_reserve" ~kf:"none" ~detail:("record=" ^ zs o.ramt ^ "_liq_balance=" ^ zs o.bals.(7));
         prevL := Some o; prevA := !curA
       | _ -> ()) lines;
   end_case ();
